@@ -17,7 +17,7 @@ DELMARK = z3.Function("child_is_a_deletion_marker", S, I, B)
 ABS = z3.Function("abs_path_of_key", S, S)
 
 T_READ = [
-    "_guard_open raises KeyError('... not open ...') exactly when the record is closed; _guard_key raises ValueError exactly for keys outside the documented alphabet (its own contract, specs/overlay.py); _children is the kernel contract; _node_seq (a walk over the path segments) is exercised by the bounded tier",
+    "_guard_open raises KeyError('... not open ...') exactly when the record is closed; _guard_key raises ValueError exactly for keys outside the documented alphabet (its own contract, specs/overlay.py); _children is the kernel contract; _node_seq (the walk over the path segments) has its own contract below",
 ]
 
 
@@ -265,7 +265,175 @@ def add_ovlread(reg):
     reg.set_class_home("IH5InnerNodeRead", "ih5/overlay.py", "IH5InnerNode")
     reg.set_class_home("IH5InnerNodeGet", "ih5/overlay.py", "IH5InnerNode")
     reg.method_bindings[("IH5InnerNodeGet", "__getitem__")] = getitem_stub
-    specs = [GetItem(), Contains(), ExpectReal(), Find(), Get(), GetChild()]
+    specs = [GetItem(), Contains(), ExpectReal(), Find(), Get(), GetChild(), NodeSeqWalk()]
     for s in specs:
         reg.add(s)
     return specs
+
+
+# ---- _node_seq: the walk along the segments of a path -----------------------------------------------------------------------------------------
+from pyvc.api import LoopSpec  # noqa: E402
+from pyvc.values import fresh_name  # noqa: E402
+
+ONode = z3.DeclareSort("OverlayNode")
+NSEG = z3.Int("number_of_path_segments")
+SEG = z3.Function("path_segment", I, S)
+RESOLVES = z3.Function("kernel_lists_segment_at_node", ONode, S, B)  # seg in node._children()  (kernel contract)
+KIDX = z3.Function("kernel_index_of_segment_at_node", ONode, S, I)
+STEP = z3.Function("child_node_of", ONode, S, ONode)  # node._get_child(seg, <kernel index>)  (GetChild)
+IS_DS = z3.Function("node_is_a_dataset", ONode, B)
+WALK = z3.Function("node_after_k_segments", I, ONode)  # definition: WALK(0) = start, WALK(k+1) = STEP(WALK(k), SEG(k))
+SELF_NODE, ROOT_NODE = z3.Consts("this_node root_group_of_the_record", ONode)
+ABSOLUTE = z3.Bool("path_starts_with_a_slash")
+IS_SLASH, IS_DOT = z3.Bool("path_is_the_text_slash"), z3.Bool("path_is_the_text_dot")
+TRIVIAL = z3.Or(IS_SLASH, IS_DOT)
+
+T_WALK = [
+    "T4 path.strip('/').split('/') are the path's segments (their number and i-th element are opaque here; what the kernel does with a segment is its contract); path[0] == '/' tells absolute paths",
+]
+
+
+class PathArg(SVal):
+    def py_getitem(self, cx, i):
+        if i != 0:
+            raise Unsupported("another character of the path than the first")
+        return FirstChar()
+
+    def py_eq(self, cx, o):
+        if o in ("/", "."):
+            return IS_SLASH if o == "/" else IS_DOT
+        raise Unsupported("comparison of the path with another text")
+
+    def meth_strip(self, cx, ch):
+        if ch != "/":
+            raise Unsupported("strip of other characters")
+        return self
+
+    def meth_split(self, cx, sep):
+        if sep != "/":
+            raise Unsupported("split by another separator")
+        return SegList()
+
+
+class FirstChar(SVal):
+    def py_eq(self, cx, o):
+        if o == "/":
+            return ABSOLUTE
+        raise Unsupported("comparison of the first character")
+
+
+class SegList(SVal):
+    def py_len(self, cx):
+        return SInt(NSEG)
+
+    def py_getitem(self, cx, i):
+        t = i.t if isinstance(i, SInt) else z3.IntVal(i)
+        return SStr(SEG(t))
+
+
+class KMap(SVal):
+    def __init__(self, n):
+        self.n = n
+
+    def meth_get(self, cx, seg, default=None):
+        if default != -1:
+            raise Unsupported("another default than -1")
+        cx.assume(KIDX(self.n, seg.t) >= 0)  # kernel contract: a listed key comes with the index of a container (>= the node's creation index >= 0)
+        return SInt(z3.If(RESOLVES(self.n, seg.t), KIDX(self.n, seg.t), -1))
+
+
+class NodeV(SVal):
+    def __init__(self, t):
+        self.t = t
+
+    def meth__children(self, cx):
+        return KMap(self.t)
+
+    def meth__get_child(self, cx, seg, idx):
+        cx.oblige("child-taken-from-the-container-the-kernel-names", "call-pre", idx_term(idx) == KIDX(self.t, seg.t), clause="the next node is the child in exactly the container the kernel determined for that segment")
+        return NodeV(STEP(self.t, seg.t))
+
+    def py_isinstance(self, cx, c):
+        n = getattr(c, "name", c)
+        if n == "IH5Dataset":
+            return IS_DS(self.t)
+        raise Unsupported(f"isinstance(node, {n})")
+
+    def py_getattr(self, cx, n):
+        if n == "_gpath":
+            return SStr(z3.String(fresh_name("gpath")))
+        if n == "_record":
+            return "the-record"
+        raise Unsupported("node attribute " + n)
+
+    def fresh_like(self, cx, hint="n"):
+        return NodeV(z3.Const(fresh_name(hint), ONode))
+
+
+class NodeList(SVal):
+    """ret: only its length and last element matter to the callers (nodes[-1])"""
+
+    def __init__(self, n, last):
+        self.n, self.last = n, last
+
+    def meth_append(self, cx, v):
+        self.n, self.last = self.n + 1, v.t
+
+    def havoc_inplace(self, cx, hint="ret"):
+        self.n, self.last = z3.Int(fresh_name(hint + "_len")), z3.Const(fresh_name(hint + "_last"), ONode)
+
+
+class NodeSeqWalk(FnSpec):
+    file = "ih5/overlay.py"
+    qual = "IH5InnerNode._node_seq"
+    props = ("C01", "C09")
+
+    def init(self):
+        from pyvc.engine import SClass
+
+        self.bindings["IH5Group"] = lambda cx, rec: NodeV(ROOT_NODE) if rec == "the-record" else (_ for _ in ()).throw(Unsupported("IH5Group of another record"))
+        self.bindings["IH5Dataset"] = SClass("IH5Dataset")
+
+        def inv(cx, env, it):
+            j = z3.Int(fresh_name("wj"))
+            ret, curr = env["ret"], env["curr"]
+            i = it.i
+            # the definition of WALK, unfolded where it is used (an instance per loop head; no quantified axiom, which
+            # sends the solvers into `unknown` on the exit obligations)
+            cx.assume(z3.Implies(i >= 0, WALK(i + 1) == STEP(WALK(i), SEG(i))))
+            return [
+                ("walked-so-far", z3.And(curr.t == WALK(i), ret.last == WALK(i), ret.n == i + 1)),
+                ("every-segment-so-far-resolved-and-no-dataset-on-the-way", z3.ForAll([j], z3.Implies(z3.And(0 <= j, j < i), z3.And(RESOLVES(WALK(j), SEG(j)), z3.Implies(j < NSEG - 1, z3.Not(IS_DS(WALK(j + 1)))))))),
+            ]
+
+        self.loops[0] = LoopSpec(inv, modifies=["seg", "is_last_seg", "nxt_cidx", "curr"], havoc_inplace=["ret"])
+
+    def annotated_value(self, cx, name, ann, v):
+        if name == "ret" and isinstance(v, list) and len(v) == 1 and isinstance(v[0], NodeV):
+            return NodeList(z3.IntVal(1), v[0].t)
+        return None
+
+    def setup(self, cx):
+        me = NodeV(SELF_NODE)
+        k = z3.Int("wk")
+        start = z3.If(ABSOLUTE, ROOT_NODE, SELF_NODE)
+        cx.assume(WALK(0) == start)  # definition of WALK: WALK(0) = start, WALK(k+1) = STEP(WALK(k), SEG(k)) (unfolded at the loop head)
+        cx.assume(NSEG >= 1)  # T4: split() never gives an empty list
+        return A(self=me, path=PathArg())
+
+    raises_exact = False  # justified below; that it is raised for every such path follows from the walk not passing a dataset (invariant)
+
+    def raises(self, cx, a):
+        j = z3.Int("rj")
+        return {"ValueError": z3.And(z3.Not(TRIVIAL), z3.Exists([j], z3.And(0 <= j, j < NSEG - 1, IS_DS(WALK(j + 1)), RESOLVES(WALK(j), SEG(j)))))}
+
+    def ensures(self, cx, a, res):
+        if not isinstance(res, NodeList):
+            return [("a-node-sequence", z3.BoolVal(False), "")]
+        j = z3.Int("ej")
+        k = res.n - 1
+        start = z3.If(ABSOLUTE, ROOT_NODE, SELF_NODE)
+        return [
+            ("special-paths-are-the-start-node", z3.Implies(TRIVIAL, z3.And(res.n == 1, res.last == start)), "'/' and '.' denote the start node itself (the record's root for absolute paths)"),
+            ("ends-at-the-node-reached-by-the-resolving-prefix", z3.Implies(z3.Not(TRIVIAL), z3.And(0 <= k, k <= NSEG, res.last == WALK(k), z3.ForAll([j], z3.Implies(z3.And(0 <= j, j < k), RESOLVES(WALK(j), SEG(j)))), z3.Or(k == NSEG, z3.Not(RESOLVES(WALK(k), SEG(k)))))), "the walk follows the segments from the start node, each step through the kernel's resolution at the node reached so far, and stops exactly at the first segment the kernel does not list (deleted or never created) — or at the end of the path; so a path is found iff every segment resolves in turn"),
+        ]
